@@ -282,6 +282,53 @@ pub fn check_add(jar: &[AClass], libs: &[Vec<AClass>], cal: &MMappings, maps: &M
 	dev
 }
 
+// ---------- SpecializedMethods: the tie-break of specialized_to_bridge and `remap` ----------
+impl Hier {
+	/// all proper descendants (transitive closure over the same edges, with a visited set)
+	pub fn descendants(&self, c: &S) -> BTreeSet<S> {
+		let mut seen = BTreeSet::new();
+		let mut todo = vec![c.clone()];
+		while let Some(x) = todo.pop() {
+			for (k, ps) in &self.parents {
+				if ps.contains(&x) && seen.insert(k.clone()) { todo.push(k.clone()); }
+			}
+		}
+		seen
+	}
+}
+
+/// specialized_to_bridge by the documented rule ("we already have a bridge for this method, so we keep the one higher in
+/// the hierarchy"): one entry per delegate, in the order the delegates are first seen; a later bridge replaces the
+/// recorded one exactly when the recorded bridge's class is a (transitive) subtype of the later bridge's class.
+pub fn ref_s2b(jar: &[AClass], pairs: &[(MRef, MRef)]) -> Vec<(MRef, MRef)> {
+	let h = Hier::new(jar);
+	let mut out: Vec<(MRef, MRef)> = vec![];
+	for (b, s) in pairs {
+		match out.iter_mut().find(|e| e.0 == *s) {
+			Some(e) => { if h.descendants(&b.class).contains(&e.1.class) { e.1 = b.clone(); } }
+			None => out.push((s.clone(), b.clone())),
+		}
+	}
+	out
+}
+
+/// `SpecializedMethods::remap(calamus remapper)` on one of its two tables, by the documented rule: both components of
+/// every pair re-expressed in intermediary names (own row, else through the super types of the jars), collected into a
+/// map keyed by the first component — a later pair with an equal key replaces the value, the position of the first
+/// stays.  None = one of the lookups runs into cyclic inheritance (documented: an error).
+pub fn ref_remap(jar: &[AClass], libs: &[Vec<AClass>], cal: &MMappings, pairs: &[(MRef, MRef)]) -> Option<Vec<(MRef, MRef)>> {
+	let mut jars: Vec<&[AClass]> = vec![jar];
+	for l in libs { jars.push(l); }
+	let sup_off = |c: &S| jar_supers(&jars, c);
+	let lc = Look { m: cal, from: 0, to: 1, supers: &sup_off, cyclic: Default::default(), failed: Default::default() };
+	let mut out: Vec<(MRef, MRef)> = vec![];
+	for (a, b) in pairs {
+		let (a2, b2) = (lc.mref(a), lc.mref(b));
+		if let Some(e) = out.iter_mut().find(|e| e.0 == a2) { e.1 = b2; } else { out.push((a2, b2)); }
+	}
+	if lc.cyclic.get() { None } else { Some(out) }
+}
+
 /// equality of two lists as multisets
 fn same_multiset<T: PartialEq>(a: &[T], b: &[T]) -> bool {
 	if a.len() != b.len() { return false; }
